@@ -23,9 +23,26 @@ def _modules():
             and isinstance(m, types.ModuleType)]
 
 
-def _copy(val):
+def _copy(val, depth=0):
+    """structural copy: containers (dict / list / set / tuple) are copied
+    recursively, everything else (classes, functions, models, arrays) is
+    kept by reference"""
     try:
-        return copy.copy(val)
+        if depth > 6:
+            return val
+        if isinstance(val, dict):
+            out = copy.copy(val)
+            out.clear()
+            for k, v in val.items():
+                out[k] = _copy(v, depth + 1)
+            return out
+        if isinstance(val, list):
+            return [_copy(v, depth + 1) for v in val]
+        if isinstance(val, tuple) and type(val) is tuple:
+            return tuple(_copy(v, depth + 1) for v in val)
+        if isinstance(val, (set, frozenset)):
+            return copy.copy(val)
+        return val
     except Exception:
         return None
 
@@ -67,7 +84,18 @@ def _plain(val, depth=0):
 
 def _nested(val):
     vals = val.values() if isinstance(val, dict) else val
-    return any(isinstance(v, (list, dict, set)) for v in vals)
+    return any(isinstance(v, (list, dict, set, tuple)) for v in vals)
+
+
+def pristine(modname, attr):
+    """structural copy of a module-level container as it was when the
+    snapshot was taken"""
+    snapshot()
+    for mn, holder, name, obj, saved, deep in _SNAP["attrs"]:
+        if mn == modname and name == attr and isinstance(
+                holder, types.ModuleType):
+            return _copy(saved)
+    raise KeyError((modname, attr))
 
 
 def _modname(holder):
@@ -104,8 +132,8 @@ def snapshot(force=False):
                 if name.startswith("__") and name.endswith("__"):
                     continue
                 if isinstance(val, _CONTAINERS):
-                    deep = _plain(val) and _nested(val)
-                    saved = copy.deepcopy(val) if deep else _copy(val)
+                    deep = _nested(val)
+                    saved = _copy(val)
                     snap["attrs"].append((mn, holder, name, val, saved, deep))
             if isinstance(holder, types.FunctionType):
                 for kind in ("__defaults__", "__kwdefaults__"):
@@ -142,8 +170,8 @@ def restore(prefix="nanite"):
     for mn, holder, name, obj, saved, deep in _SNAP["attrs"]:
         if saved is None or not mn.startswith(prefix):
             continue
-        if obj != saved or deep:
-            _refill(obj, copy.deepcopy(saved) if deep else saved)
+        if deep or obj != saved:
+            _refill(obj, _copy(saved))
         try:
             if vars(holder).get(name) is not obj:
                 setattr(holder, name, obj)
